@@ -239,6 +239,10 @@ def plan(tier, seed):
                timeout=240 if quick else 900, batch=4, vacuity=2, program_key='prog',
                mutants=[{'name': 'condition_after_repeat', 'cfg': mut_cfg2},
                         {'name': 'none_content_keeps_children', 'cfg': mut_cfg1}])
+    sj = [{'shape': sh} for sh in ([0, 1, 2, 3], ['a 1', 0, 1, 2, 'b 2'], ['a 1;', 0, 1, 2], [0, ';', 1, ';', 2, 'x'],
+                                   ['k string:x', 0, 1, 2, ' j', 3])]
+    famS = dict(name='clause_splitting', module='checks.hC11', fn='split_texts', jobs=sj, timeout=600, vacuity=1,
+                mutants=[{'name': 'split_regex_lookaround', 'cfg': sj[1]}])
     return dict(
         level='translation_validation',
         functions=['chameleon.zpt.program:MacroProgram.visit_element',
@@ -258,7 +262,7 @@ def plan(tier, seed):
                 'classes) in %s attribute order(s), 7x6 depth-2 nestings, 12 switch/case families (incl. switch together with repeat / condition on one element and a switch on the loop variable; documented and implemented relative order both admissible), 4 programs probing that the hidden outer binding (unbound / None / value) of a defined or loop variable is back after the element; bindings '
                 'decided by the solver per program: condition/omit flags bool, value class index over '
                 '[None, default, False, True, 0, 2, "", "a<"], sequence length 0..3 or None, define value int '
-                'in [0,4). Outside: depth > 2, case together with repeat/condition-false on one element '
+                'in [0,4); the splitting of \';\'-separated statement arguments (tal.split_parts) on 5 shapes with 3-4 symbolic code points. Outside: depth > 2, case together with repeat/condition-false on one element '
                 '(documentation and implementation order differ), bytes/one-shot iterators/dicts as values '
                 '(C02/C07/C08).' % (len(jobs), 160 if quick else 1300,
                                     'one seeded' if quick else 'all (<=3 statements) or three')),
@@ -271,5 +275,5 @@ def plan(tier, seed):
             'statement silent)',
             'value-class selection is a symbolic index into a concrete table (explored by forking)',
         ],
-        families=[fam],
+        families=[fam, famS],
     )
